@@ -257,7 +257,9 @@ func (db *MultiBucketBackend) DeleteBucket(name string) (rerr error) {
 	defer db.lock.Unlock()
 
 	entries, err := afero.ReadDir(db.bucketFs, name)
-	if err != nil {
+	if os.IsNotExist(err) {
+		return gofakes3.BucketNotFound(name)
+	} else if err != nil {
 		return err
 	}
 
